@@ -20,6 +20,7 @@ model `Dnf.markers` (correspondence).
 import itertools
 
 IRR = 9
+FAIL = 100  # event FAIL+i makes the running instances of flow f<i> fail (programs built with fail=True only)
 
 
 def atoms_of(g, out=None):
@@ -55,6 +56,7 @@ def groups_of(prog, out=None):
             for c in s["cases"]:
                 out.append((s["grp"], c["g"]))
                 groups_of(c["body"], out)
+            groups_of(s.get("else") or [], out)
         elif "loop" in s:
             groups_of(s["loop"], out)
     return out
@@ -94,6 +96,8 @@ def render_stmts(prog, ind):
             else:
                 for i, c in enumerate(s["cases"]):
                     out += f"{pad}{'when' if i == 0 else 'or when'} {_render_g(c['g'], kf)}\n" + render_stmts(c["body"], ind + 1)
+                if s.get("else") is not None:
+                    out += f"{pad}else\n" + render_stmts(s["else"], ind + 1)
     return out
 
 
@@ -105,16 +109,19 @@ def flow_atoms(prog, out=None):
             for c in s["cases"]:
                 out.update(a for a in atoms_of(c["g"]) if kf(a) == "f")
                 flow_atoms(c["body"], out)
+            flow_atoms(s.get("else") or [], out)
         elif "loop" in s:
             flow_atoms(s["loop"], out)
     return out
 
 
-def program(prog, subs):
+def program(prog, subs, fail=False):
     src = ""
     for a in sorted(flow_atoms(prog)):
         if str(a) in subs:
             src += f"flow f{a}\n  match {_render_g(subs[str(a)], lambda _: 'e')}\n\n"
+        elif fail:
+            src += f"flow f{a}\n  when E{a}()\n    return\n  or when F{a}()\n    abort\n\n"
         else:
             src += f"flow f{a}\n  match E{a}()\n\n"
     return src + "flow main\n" + render_stmts(prog, 1) + "  match Never()\n"
@@ -122,26 +129,41 @@ def program(prog, subs):
 
 # ----------------------------------------------------------------------------- reference semantics
 
-def first_sat_py(g, seq, i):
-    s = set()
+def view(kind, seq):
+    """the sequence as a statement of `kind` sees it: a `match` on events ignores the failure events of flows"""
+    return [IRR if (kind == "match" and a >= FAIL) else a for a in seq]
+
+
+def outcome_py(kind, g, seq, i):
+    """(least k >= i at which the formula is satisfied by the events / finished flows since i, least k >= i at which it can no
+    longer be satisfied because flows have failed) — at most one of the two is not None"""
+    fin, dead, al = set(), set(), set(atoms_of(g))
     for k in range(i, len(seq)):
-        s.add(seq[k])
-        if ev(g, s):
-            return k
-    return None
+        a = seq[k]
+        if a >= FAIL:
+            if kind != "match" and a - FAIL not in fin:
+                dead.add(a - FAIL)
+        elif a not in dead:
+            fin.add(a)
+        if ev(g, fin):
+            return k, None
+        if dead and not ev(g, al - dead):
+            return None, k
+    return None, None
 
 
-def traces(prog, subs, seq, first_sat, limit=64):
-    """set of possible marker traces: per event the tuple of marker names emitted while processing it"""
+def traces(prog, subs, seq, outcome, limit=64):
+    """set of possible (marker trace, aborted) pairs: per event the tuple of marker names emitted while processing it, and whether
+    the main flow was aborted by a failing group statement"""
     n = len(seq)
     results = set()
 
-    def record(emitted):
+    def record(emitted, aborted):
         per = [[] for _ in range(n)]
         for t, m in emitted:
             if t >= 0:
                 per[t].append(m)
-        results.add(tuple(tuple(x) for x in per))
+        results.add((tuple(tuple(x) for x in per), aborted))
 
     def go(cont, i, emitted, t, fuel):
         while cont and fuel > 0 and len(results) < limit:
@@ -153,16 +175,25 @@ def traces(prog, subs, seq, first_sat, limit=64):
             elif "loop" in s:
                 cont = tuple(s["loop"]) + cont
             else:
-                ks = [(first_sat(subst(c["g"], subs), seq, i), c) for c in s["cases"]]
-                live = [k for k, _ in ks if k is not None]
-                if not live:
-                    break
-                kmin = min(live)
-                for k, c in ks:
-                    if k == kmin:
-                        go(tuple(c["body"]) + cont[1:], kmin + 1, emitted, kmin, fuel)
-                return
-        record(emitted)
+                ks = [(outcome(s["grp"], subst(c["g"], subs), seq, i), c) for c in s["cases"]]
+                sat = [o[0] for o, _ in ks if o[0] is not None]
+                unsat = [o[1] for o, _ in ks]
+                kfail = max(unsat) if all(u is not None for u in unsat) else None
+                if sat and (kfail is None or min(sat) <= kfail):
+                    kmin = min(sat)
+                    for o, c in ks:
+                        if o[0] == kmin:
+                            go(tuple(c["body"]) + cont[1:], kmin + 1, emitted, kmin, fuel)
+                    return
+                if kfail is not None:
+                    # every case has become unsatisfiable: else branch, or the flow is aborted
+                    if s.get("else") is not None:
+                        go(tuple(s["else"]) + cont[1:], kfail + 1, emitted, kfail, fuel)
+                    else:
+                        record(emitted, True)
+                    return
+                break
+        record(emitted, False)
 
     go(tuple(prog), 0, (), -1, 200)
     return results
@@ -181,17 +212,25 @@ def _when(cases, kinds):
     return {"grp": "when", "cases": [{"g": g, "body": b} for g, b in cases], "kinds": kinds}
 
 
-def gen_prog(rng, gf, tmpl=None):
-    """gf(leaves_max) -> random formula over atoms 0..3; returns (template name, prog, subs)"""
+def gen_prog(rng, gf, tmpl=None, fail=False):
+    """gf(leaves_max) -> random formula over atoms 0..3; returns (template name, prog, subs).
+    fail=True: programs whose flows can fail (all `when` atoms are flows; some `when` statements get an else branch)"""
     tmpl = tmpl or rng.choice(TEMPLATES)
-    kinds = "".join(rng.choice("eff") for _ in range(5))
-    k1, k2 = rng.choice(["match", "await", "when"]), rng.choice(["match", "await", "when"])
-    H, H2, H3 = {"send": "Hit"}, {"send": "Hit2"}, {"send": "Hit3"}
+    kinds = "fffff" if fail else "".join(rng.choice("eff") for _ in range(5))
+    kk = ["match", "await", "when", "await", "when"] if fail else ["match", "await", "when"]
+    k1, k2 = rng.choice(kk), rng.choice(kk)
+    if fail and tmpl in ("seq2", "loop2"):
+        # a group that completed, then a group that can fail (stale failure labels / scopes of the first one)
+        k1, k2 = rng.choice(["match", "match", "await", "when"]), rng.choice(["await", "when"])
+    H, H2, H3, H4 = {"send": "Hit"}, {"send": "Hit2"}, {"send": "Hit3"}, {"send": "Hit4"}
 
     def st(kind, g, body_after):
         """a group statement of `kind` followed by `body_after` (for `when` the rest goes INTO the case body)"""
         if kind == "when":
-            return [_grp("when", g, body_after, kinds)]
+            w = _grp("when", g, body_after, kinds)
+            if fail and rng.random() < 0.5:
+                w["else"] = [H4]
+            return [w]
         return [_grp(kind, g)] + body_after
 
     if tmpl == "loop":
@@ -203,7 +242,10 @@ def gen_prog(rng, gf, tmpl=None):
         return tmpl, st(k1, gf(4), [H]) + st(k2, gf(4), [H2]), {}
     if tmpl == "whenbody":
         inner = st(k2, gf(4), [H])
-        prog = [_when([(gf(3), inner), (gf(3), [H2])], kinds)]
+        w = _when([(gf(3), inner), (gf(3), [H2])], kinds)
+        if fail and rng.random() < 0.5:
+            w["else"] = [H4]
+        prog = [w]
         return tmpl, ([{"loop": prog}] if rng.random() < 0.3 else prog), {}
     if tmpl == "nestwhen":
         inner = [_when([(gf(3), [H]), (gf(2), [H3])] if rng.random() < 0.5 else [(gf(3), [H])], kinds)]
@@ -224,9 +266,9 @@ def gen_prog(rng, gf, tmpl=None):
 TEMPLATES = ["loop", "loop", "loop2", "seq2", "whenbody", "nestwhen", "subgroup"]
 
 
-def gen_seqs(rng, prog, subs, n, maxlen=9):
+def gen_seqs(rng, prog, subs, n, maxlen=9, fail=False):
     al = sorted({a for _, g in groups_of(prog) for a in atoms_of(subst(g, subs))})
-    full = al + [IRR]
+    full = al + [IRR] + ([FAIL + a for a in sorted(flow_atoms(prog))] if fail else [])
     out, seen = [], set()
     for _ in range(n):
         r = rng.random()
@@ -240,6 +282,8 @@ def gen_seqs(rng, prog, subs, n, maxlen=9):
                 rng.shuffle(p)
                 if rng.random() < 0.4:
                     p.insert(rng.randrange(len(p) + 1), IRR)
+                if fail and rng.random() < 0.35:
+                    p.insert(rng.randrange(len(p) + 1), FAIL + rng.choice(al))
                 s.extend(p)
             s = s[:rng.randint(3, maxlen)]
         if tuple(s) not in seen:
